@@ -20,7 +20,7 @@ for d in sorted(glob.glob('/verif/seeded/C*-*')):
         if any('no-failing-input-found' in l for l in ls): return 'VIOLATION no-failing-input-found'
         if any(l.startswith('PASS') for l in ls): return 'MISSED (PASS)'
         return 'other: ' + (ls[-1][:60] if ls else r['hdr'][-20:])
-    hist = ['%s@%s: %s' % (pid, re.search(r'verif_head=(\w+)', r['hdr']).group(1), verdict(r)) for pid, r in runs]
+    hist = ['%s@%s: %s' % (pid, (re.search(r'verif_head=(\w+)', r['hdr']) or re.search(r'repo_head=(\w+)', r['hdr'])).group(1), verdict(r)) for pid, r in runs]
     rows.append((sid, meta.get('summary', '')[:160].replace('|', '/'), hist))
 with open('/verif/seeded/RESULTS.md', 'w') as f:
     f.write('# Seeded breaking changes and what the checks reported\n\nEach row: a change produced by an independent engineer who saw only the property text, confirmed by the coordinator (applies, suite passes, demo exits 0 unpatched / 1 patched), then run through `tools/seed_run.sh` (private copy of /verif, patched scratch worktree). History is oldest run first; a MISSED entry followed by VIOLATION means the check was strengthened in between.\n\n| seed | change | runs |\n|---|---|---|\n')
